@@ -123,6 +123,18 @@ func genC01(r *hlib.Rng, n int) In {
 	return in
 }
 
+// many deposits, small metadata: run several of these at the same time (-par) so that, as in the node (L1 bridge, L2 bridge and
+// L1 info tree syncers are goroutines of one process), several trees hash and store concurrently
+func genC01Long(r *hlib.Rng, blocks int) In {
+	h := &hist{r: r, kinds: []string{"claim"}, pBridg: 95}
+	in := In{Prop: "c01"}
+	for i := 0; i < blocks; i++ {
+		in.Ops = append(in.Ops, h.block(6))
+	}
+	in.Ops = append(in.Ops, snapOp())
+	return in
+}
+
 // high leaf indices and 2^k carry boundaries: a synthetic tree of n equal leaves, then real deposits n, n+1, ... across the carry
 func genC01High(r *hlib.Rng) In {
 	ns := []uint32{1, 2, 3, 7, 8, 255, 256, 1<<16 - 1, 1 << 16, 1<<24 - 2, 1<<31 - 1, 1 << 31, 1<<32 - 6, 1<<32 - 3}
@@ -450,6 +462,15 @@ func generate(prop string, f *hlib.Flags) []In {
 			}
 		default:
 			panic("unknown VERIF_PROP " + prop)
+		}
+	}
+	if prop == "c01" && f.N > 4 {
+		nl := 4
+		if f.Tier == "thorough" {
+			nl = 12
+		}
+		for i := 0; i < nl; i++ {
+			ins = append(ins, genC01Long(r, 40))
 		}
 	}
 	return ins
